@@ -291,6 +291,16 @@ def oracle(case, cd, seq, raw, crashes, info):
                 # an `add` whose SLM-DMM follow-up raised left the DMM channel
                 # marked as modulated without a pulse (atomicity, C09)
                 sig += ":slm-dmm-unmodulated-after-failed-add"
+            elif isinstance(e, IndexError) and any(
+                cs.slots
+                and cs.slots[-1].tf == 0
+                and any(b.ti == 0 for b in cs.eom_blocks)
+                and any(sl.ti == 0 and sl.tf == 0 for sl in cs.slots)
+                for cs in seq._schedule.values()
+            ):
+                # get_samples' EOM-buffer detection reads det[s.tf - 1] with s.tf == 0
+                # on a channel of duration 0
+                sig += ":eom-enabled-at-t0-on-empty-channel-after-zero-length-slot"
             bad(sig, f"{where}(seq) raised {e!r} on a concrete sequence")
         return v
 
